@@ -732,6 +732,7 @@ _TALES_CASES = [
     ("not: exists: t", 0), ("not: lst", 0), ("not: default", 0), ("not: not: t", 1),
     # string: literal text, $$, ${path expression}, $name
     ("string:hello", "hello"), ("string:a$$b", "a$b"), ("string:${t}", "x"), ("string:hi ${a | t}!", "hi x!"), ("string:$t and $t", "x and x"),
+    ("string:[$t\tx]", "["), ("string:$t\nz", ""),  # (only a blank ends a $name: `t<TAB>x]` is a path that does not exist)
     ("string:[${n}]", "[]"), ("string:${z}", "0"), ("string:${d/k}${t}", "vx"), ("string:", ""),
 ]
 
@@ -937,7 +938,7 @@ def define_evaluation_obligations(ctx, rep, rule, mod):
              ("global one string:1; global two string:2", [(0, "one", "string:1"), (0, "two", "string:2")])]
     problems, n = [], 0
     for text, want in cases:
-        w = Walker(prog, ctx.resolver, exact_loops=True, unroll=8, max_paths=20000, inline=lambda fn, t, d: d < 2 and t.bound_cls is not None and fn.name != "tagAsText")
+        w = Walker(prog, ctx.resolver, exact_loops=True, unroll=8, max_paths=20000, inline=lambda fn, t, d: d < 3 and (t.bound_cls is not None or (fn.cls is None and fn.module.name.startswith("simpletal"))) and fn.name != "tagAsText")
         outs = set()
         try:
             for p in w.run(cd, comp, env={cd.params[1]: Const(text)}):
